@@ -88,6 +88,7 @@ func c17(c *core.Check) {
 	_ = c
 	c.Explain = "Each routine of package matrix is normalised, without executing it, to a polynomial in its inputs (global value numbering over SSA, exact rational coefficients, sin/cos/tan uninterpreted) and compared with the specification matrix of CSS Transforms / SVG; in-place operations are compared with right multiplication by the corresponding constructor; the CSS and SVG plumbing (vocabulary, arity, argument order, left-to-right composition, transform-origin conjugation, degree/radian factors, angle-unit table) is checked on the AST/SSA. Float rounding and overflow are outside the abstraction."
 	c17Determinant(c)
+	c17Computed(c)
 	c.Assume = []string{"float32/float64 conversions are treated as identity", "the group laws follow from the laws of 2x3 affine matrices once each routine equals its specification matrix (mathematics, not re-proved)"}
 
 	r1 := c.Rule("R1", "matrix package: Translation, Scaling, Rotation, Skew, Identity, New, Determinant, mult/Mul/Mul3, LeftMultBy, RightMultBy, Apply, Invert and the in-place Translate/Scale/Rotate/Skew have the specification normal forms", 16)
@@ -942,5 +943,27 @@ func c17Determinant(c *core.Check) {
 	}
 	if n < 2 {
 		r.Unknown("determinant tests", "-", fmt.Sprintf("%d comparisons of a determinant found, 2 expected", n))
+	}
+}
+
+// c17Computed: the computed value of `transform` is per element.
+func c17Computed(c *core.Check) {
+	p := c.Prog
+	r := c.Rule("R6", "the computed value of transform is per element: the computer function `transforms` resolves the lengths of translate() into a fresh list and never writes through the declared value (shared by every element the rule matches): otherwise translate(2em) is converted with the font size of the first element computed, for all of them", 1)
+	fn := p.Fn("html/tree", "transforms")
+	if fn == nil || len(fn.Params) != 3 {
+		r.Anchor("html/tree.transforms")
+		return
+	}
+	eng := core.NewEffectsEngine(p, func(fn *ssa.Function, in ssa.Instruction) bool {
+		_, ok := c15WriteExempt[core.FuncName(fn)+" | "+p.StmtTextAt(fn, in.Pos())]
+		return ok
+	})
+	ws := eng.WritesFrom(fn, func(v ssa.Value) bool { return v == ssa.Value(fn.Params[2]) })
+	if len(ws) == 0 {
+		r.OK("html/tree.transforms | declared value not written", p.Pos(fn.Pos()), "no store, copy or in-place append reaches memory derived from the declared value")
+	}
+	for _, w := range ws {
+		r.Fail("html/tree.transforms | "+p.StmtTextAt(fn, w.Instr.Pos()), p.Pos(w.Instr.Pos()), fmt.Sprintf("%s %s: the matrix of every other element matched by the same rule is built from this element's pixel values", w.What, w.Via))
 	}
 }
